@@ -222,6 +222,23 @@ def harness_compile_cmd(res, src, out, extra_flags=()):
     return cmd
 
 
+def _include_closure(src):
+    """src plus the harness-directory headers it includes with quotes,
+    transitively (other harnesses' headers do not invalidate the binary)."""
+    import re
+    d = os.path.dirname(src)
+    seen, todo = [], [src]
+    while todo:
+        f = todo.pop()
+        if f in seen or not os.path.exists(f):
+            continue
+        seen.append(f)
+        for m in re.finditer(r'^\s*#\s*include\s+"([^"]+)"',
+                             open(f, errors="replace").read(), re.M):
+            todo.append(os.path.join(d, m.group(1)))
+    return sorted(seen)
+
+
 def build_dist_harness(name, extra_flags=(), verbose=True):
     """Compile /verif/harness/<name>.cpp against the dist libraries; binary is
     cached by content hash under /verif/build/bin."""
@@ -230,8 +247,9 @@ def build_dist_harness(name, extra_flags=(), verbose=True):
     h = hashlib.sha256()
     h.update(res["hash"].encode())
     h.update(" ".join(extra_flags).encode())
-    h.update(open(src, "rb").read())
-    h.update(build.harness_headers_hash().encode())
+    for f in _include_closure(src):
+        h.update(os.path.basename(f).encode())
+        h.update(open(f, "rb").read())
     out = os.path.join(build.BIN, "%s-%s" % (name, h.hexdigest()[:24]))
     if os.path.exists(out):
         return out, res
